@@ -2,7 +2,7 @@
    what an accepted verdict of [judge_linear] says about the observed values.
    Over Z/Q/lists; closed under the global context. *)
 From Coq Require Import Qround Sorted Lqa.
-From MM Require Import Base.Num Base.GBLemmas Model.Ticks Proofs.Ticks Proofs.TicksLinear Proofs.TicksNice
+From MM Require Import Base.Num Base.GBLemmas Model.Ticks Proofs.Ticks Proofs.TicksLinear Proofs.TicksNice Proofs.TicksNiceRep
   Check.C17 Proofs.TicksCheck Proofs.CheckBase Proofs.CheckC17Base.
 Local Open Scope Q_scope.
 
@@ -34,8 +34,8 @@ Definition lin_nice_A (tolv : Q -> Q) (o : tickopts) (base eb : Z) (mn mx : Q) (
                  | XFin a2, XFin b2 => lin_nice_adm o base eb (fst (lin_start mn mx)) (snd (lin_start mn mx)) tolv (lin_rn o base eb mn mx) a2 b2
                  | _, _ => false end.
 (* 45: Nice added at most one spacing (distance of the first two / last two observed major ticks) per end *)
-Definition lin_law45 (tolv : Q -> Q) (nomax : Z) (found : bool) (na nb ao bo : Q) (major3 : list xreal) : bool :=
-  (nomax <? 3)%Z || negb found ||
+Definition lin_law45 (tolv : Q -> Q) (nomax : Z) (rep : bool) (na nb ao bo : Q) (major3 : list xreal) : bool :=
+  (nomax <? 3)%Z || negb rep ||
   match first_two major3, last_two major3 with
   | Some (t0, t1), Some (u0, u1) => Qleb (na - ao) (t1 - t0 + tolv ao) && Qleb (bo - nb) (u1 - u0 + tolv bo)
   | _, _ => false
@@ -61,11 +61,11 @@ Record lin_groups (cd : Z) (c : sccase) (eb : Z) (ao bo : Q) : Prop := mkLG {
   lg_bl := negb (lin_nice_E lg_tolv lg_no lg_base eb lg_mn lg_mx (so_nst lg_ob) (XFin ao) (XFin bo))
            || negb (lin_ticks_E lg_tolv lg_no lg_base eb ao bo (so_st3 lg_ob) (so_major3 lg_ob) None)
            || negb (lin_nice_E lg_tolv lg_no lg_base eb ao bo (so_nst2 lg_ob) (so_nmin2 lg_ob) (so_nmax2 lg_ob));
-  lg_found := is_found (lin_rn lg_no lg_base eb lg_mn lg_mx);
+  lg_rep := lin_nice_rep_b lg_base eb (fst (lin_start lg_mn lg_mx)) (snd (lin_start lg_mn lg_mx)) (lin_rn lg_no lg_base eb lg_mn lg_mx);
   lg_40 : lok cd (law40 lg_tolv (o_max lg_no) ao bo (so_nst2 lg_ob) (so_nmin2 lg_ob) (so_nmax2 lg_ob)) lg_bl;
-  lg_41 : lok cd (law41 lg_tolv (o_max lg_no) lg_found ao bo (so_major3 lg_ob)) lg_bl;
+  lg_41 : lok cd (law41 lg_tolv (o_max lg_no) lg_rep ao bo (so_major3 lg_ob)) lg_bl;
   lg_43 : law43 ao bo (so_map0 lg_ob) (so_map1 lg_ob) = true;
-  lg_45 : lok cd (lin_law45 lg_tolv (o_max lg_no) lg_found (fst (lin_start lg_mn lg_mx)) (snd (lin_start lg_mn lg_mx)) ao bo (so_major3 lg_ob)) lg_bl }.
+  lg_45 : lok cd (lin_law45 lg_tolv (o_max lg_no) lg_rep (fst (lin_start lg_mn lg_mx)) (snd (lin_start lg_mn lg_mx)) ao bo (so_major3 lg_ob)) lg_bl }.
 
 (* Base = 1 or negative: every call that needs a level panics *)
 Definition lin_badbase_ok (c : sccase) : Prop :=
@@ -106,7 +106,7 @@ Proof.
   apply conclude_groups in H; [|exact Hc]. split_groups H. clear H.
   exists ao, bo. cbn [fst] in *. rewrite ?grp_ge1 in *.
   constructor; cbv zeta;
-    unfold lin_ticks_E, lin_ticks_A, lin_nice_E, lin_nice_A, lin_nice_xy, lin_rt, lin_rn, is_found, law40, law41, law43, lin_law45;
+    unfold lin_ticks_E, lin_ticks_A, lin_nice_E, lin_nice_A, lin_nice_xy, lin_rt, lin_rn, law40, law41, law43, lin_law45;
     rewrite ?Eo, ?Es, ?Eo3, ?Es3; cbn [fst snd]; rewrite ?Exy, ?Exy3; cbn [fst snd].
   - auto.
   - apply grp_gok; [exact K | exact Hc].
@@ -308,20 +308,26 @@ Proof.
     apply (lin_nice_level_iff base eb o na nb l' 0 He Ord) in F. exact (No l' F).
 Qed.
 
-(* Nice found a level exactly when a Nice level exists *)
-Lemma lin_found_iff o base eb mn mx : lin_ebase base = Some eb ->
-  (is_found (lin_rn o base eb mn mx) = true <-> exists l, lin_nice_level base eb o (fst (lin_start mn mx)) (snd (lin_start mn mx)) l).
+(* Nice found a level and both candidate ends of that level, floor((min + slack)/spacing) spacing and
+   ceil((max - slack)/spacing) spacing, are finite float64 values (at a level whose spacing overflows
+   float64 only the multiple 0 is) *)
+Definition lin_nice_rep_spec (base eb : Z) (o : tickopts) (smn smx : Q) : Prop :=
+  exists l, lin_nice_level base eb o smn smx l /\
+    let sp := lin_spacing base eb l in let sl := (smx - smn) * slack_factor in
+    Qabs (inject_Z (Qfloor ((smn + sl) / sp)) * sp) < qpow 2 1024 /\ Qabs (inject_Z (Qceiling ((smx - sl) / sp)) * sp) < qpow 2 1024.
+Lemma lin_rep_of_spec o base eb mn mx : lin_ebase base = Some eb ->
+  lin_nice_rep_spec base eb o (fst (lin_start mn mx)) (snd (lin_start mn mx)) ->
+  lin_nice_rep_b base eb (fst (lin_start mn mx)) (snd (lin_start mn mx)) (lin_rn o base eb mn mx) = true.
 Proof.
   intro He. unfold lin_rn. pose proof (nice_start_ordered mn mx) as Ord. change (nice_start mn mx) with (lin_start mn mx) in Ord.
-  destruct (lin_start mn mx) as [na nb]. cbn [fst snd]. rewrite (lin_search_out_eq o base eb na nb He). split.
-  - destruct (find_level o (lin_count base eb na nb true) 0) as [l| |] eqn:F; try discriminate. intros _. exists l.
-    now apply (lin_nice_level_iff base eb o na nb l 0 He Ord).
-  - intros (l & Hl). apply (lin_nice_level_iff base eb o na nb l 0 He Ord) in Hl. now rewrite Hl.
+  destruct (lin_start mn mx) as [na nb]. cbn [fst snd]. rewrite (lin_search_out_eq o base eb na nb He).
+  intros (l & Hl & F1 & F2). apply (lin_nice_level_iff base eb o na nb l 0 He Ord) in Hl. rewrite Hl.
+  unfold lin_nice_rep_b. rewrite first_last_out. unfold f64_fin. apply andb_true_intro. split; now apply Qltb_true.
 Qed.
 
 (* 45 *)
-Lemma lin_law45_sound tolv nomax found na nb ao bo major3 : lin_law45 tolv nomax found na nb ao bo major3 = true ->
-  (3 <= nomax)%Z -> found = true ->
+Lemma lin_law45_sound tolv nomax rep na nb ao bo major3 : lin_law45 tolv nomax rep na nb ao bo major3 = true ->
+  (3 <= nomax)%Z -> rep = true ->
   exists t0 t1 rest u1 u0 rest', major3 = XFin t0 :: XFin t1 :: rest /\ rev major3 = XFin u1 :: XFin u0 :: rest' /\
     na - ao <= t1 - t0 + tolv ao /\ bo - nb <= u1 - u0 + tolv bo.
 Proof.
@@ -347,7 +353,7 @@ Definition linear_some_gen (G : bool -> bool -> Prop -> Prop) (Lw : bool -> Prop
   let E36 := lin_ticks_E tolv no base eb ao bo (so_st3 ob) (so_major3 ob) None in
   let E37 := lin_nice_E tolv no base eb ao bo (so_nst2 ob) (so_nmin2 ob) (so_nmax2 ob) in
   let bl := negb E30 || negb E36 || negb E37 in
-  let found := exists l, lin_nice_level base eb no (fst (lin_start mn mx)) (snd (lin_start mn mx)) l in
+  let rep := lin_nice_rep_spec base eb no (fst (lin_start mn mx)) (snd (lin_start mn mx)) in
   (* 10: Ticks(o) *)
   G (lin_ticks_E tolv o base eb mn mx (so_st ob) (so_major ob) (Some (so_minor ob)))
     (lin_ticks_A tolv o base eb mn mx (so_st ob) (so_major ob) (Some (so_minor ob)))
@@ -371,13 +377,13 @@ Definition linear_some_gen (G : bool -> bool -> Prop -> Prop) (Lw : bool -> Prop
   (* 40: idempotent for Max >= 3 *)
   Lw bl ((3 <= o_max no)%Z -> so_nst2 ob = 0%Z /\ exists a2 b2, so_nmin2 ob = XFin a2 /\ so_nmax2 ob = XFin b2 /\
            Qabs (a2 - ao) <= tolv ao /\ Qabs (b2 - bo) <= tolv bo) /\
-  (* 41: first and last major tick after Nice are the new ends (Max >= 3, a level was found) *)
-  Lw bl ((3 <= o_max no)%Z -> found -> exists f rest t0 tl, so_major3 ob = f :: rest /\ f = XFin t0 /\ last (so_major3 ob) f = XFin tl /\
+  (* 41: first and last major tick after Nice are the new ends (Max >= 3, Nice found a level whose two candidate ends are finite float64) *)
+  Lw bl ((3 <= o_max no)%Z -> rep -> exists f rest t0 tl, so_major3 ob = f :: rest /\ f = XFin t0 /\ last (so_major3 ob) f = XFin tl /\
            Qabs (t0 - ao) <= tolv ao /\ Qabs (tl - bo) <= tolv bo) /\
   (* 43: Map(new Min) = 0, Map(new Max) = 1 *)
   (~ ao == bo -> exists p q, so_map0 ob = XFin p /\ so_map1 ob = XFin q /\ Qabs p <= e12 /\ Qabs (q - 1) <= e12) /\
-  (* 45: each end moved by at most one observed major tick spacing (Max >= 3, a level was found) *)
-  Lw bl ((3 <= o_max no)%Z -> found -> exists t0 t1 rest u1 u0 rest',
+  (* 45: each end moved by at most one observed major tick spacing (Max >= 3, Nice found a level whose two candidate ends are finite float64) *)
+  Lw bl ((3 <= o_max no)%Z -> rep -> exists t0 t1 rest u1 u0 rest',
            so_major3 ob = XFin t0 :: XFin t1 :: rest /\ rev (so_major3 ob) = XFin u1 :: XFin u0 :: rest' /\
            fst (lin_start mn mx) - ao <= t1 - t0 + tolv ao /\ bo - snd (lin_start mn mx) <= u1 - u0 + tolv bo).
 
@@ -406,9 +412,9 @@ Proof.
   - eapply HG; [exact K36|]. now apply lin_ticks_E_sound.
   - eapply HG; [exact K37|]. now apply lin_nice_E_sound.
   - eapply HL; [exact K40|]. intros E Hm. now apply (law40_sound _ _ _ _ _ _ _ E).
-  - eapply HL; [exact K41|]. intros E Hm Hf. apply (law41_sound _ _ _ _ _ _ E Hm). now apply lin_found_iff.
+  - eapply HL; [exact K41|]. intros E Hm Hf. apply (law41_sound _ _ _ _ _ _ E Hm). now apply lin_rep_of_spec.
   - intro Hn. now apply (law43_sound _ _ _ _ K43).
-  - eapply HL; [exact K45|]. intros E Hm Hf. apply (lin_law45_sound _ _ _ _ _ _ _ _ E Hm). now apply lin_found_iff.
+  - eapply HL; [exact K45|]. intros E Hm Hf. apply (lin_law45_sound _ _ _ _ _ _ _ _ E Hm). now apply lin_rep_of_spec.
 Qed.
 
 Theorem judge_linear_sound c cd t p d : judge_linear c = verdict cd t p d -> cd = 0%Z \/ cd = 1%Z ->
